@@ -52,7 +52,7 @@ def _case(draw, part):
     h = draw(st.sampled_from([0.001, 0.01, 0.05, 0.1, 0.3, 1.0] if part != "energy" else [0.02, 0.05, 0.1])) * draw(st.sampled_from([1.0, -1.0]))
     c = dict(part=part, method=method, d=d, layout=layout, h=h, LA=draw(_spd(d)), LB=draw(_spd(d)),
              q=draw(st.lists(_fr.map(lambda x: 2 * x), min_size=d, max_size=d)), p=draw(st.lists(_fr.map(lambda x: 2 * x), min_size=d, max_size=d)),
-             mask_via=draw(st.sampled_from(["set_kick_vars", "set_method"])))
+             mask_via=draw(st.sampled_from(["set_kick_vars", "set_method"])), shape2d=draw(st.sampled_from([None, None, "rows", "rowvec"])))
     if part != "linear":
         c["ham"] = draw(st.sampled_from(["pendulum_chain", "quartic"]))
         c["k"] = draw(st.sampled_from([0.0, 0.5, 1.0]))
@@ -160,17 +160,26 @@ def _step_direct(name, Hm, y, h, dtype, tol=1e-13):
 def _step_system(name, Hm, y, h, case):
     """one step through the public OdeSystem with the kick mask set through the public API; returns (y1, mask read back)"""
     import desolver as de
-    a = de.OdeSystem(Hm.rhs, y0=np.asarray(y, dtype=np.float64), t=(0.0, h), dt=abs(h), rtol=1e-13, atol=1e-13)
+    # the state may be handed over with more than one axis (the mask has the shape of the state): rows (q_i, p_i) for the
+    # interleaved layout, or a (1, 2d) row vector
+    shp = {"rows": (Hm.n // 2, 2), "rowvec": (1, Hm.n)}.get(case.get("shape2d")) if (case.get("shape2d") != "rows" or case["layout"] == "interleaved") else None
+    if shp is None:
+        rhs, y_in, mask_in = Hm.rhs, np.asarray(y, dtype=np.float64), Hm.mask.copy()
+    else:
+        def rhs(t, Y, **kw):
+            return Hm.rhs(t, np.asarray(Y).reshape(-1)).reshape(shp)
+        y_in, mask_in = np.asarray(y, dtype=np.float64).reshape(shp), Hm.mask.copy().reshape(shp)
+    a = de.OdeSystem(rhs, y0=y_in, t=(0.0, h), dt=abs(h), rtol=1e-13, atol=1e-13)
     if case["mask_via"] == "set_method":
-        a.set_method(M.get(name), staggered_mask=Hm.mask.copy())
+        a.set_method(M.get(name), staggered_mask=mask_in)
     else:
         a.method = M.get(name)
-        a.set_kick_vars(Hm.mask.copy())
+        a.set_kick_vars(mask_in)
     used = getattr(a.integrator, "staggered_mask", None)
     a.integrate()
     if len(a) != 2:
         raise RuntimeError("expected one step, got {}".format(len(a) - 1))
-    return np.asarray(a.y[-1], dtype=np.float64), (None if used is None else np.asarray(used, dtype=bool).copy())
+    return np.asarray(a.y[-1], dtype=np.float64).reshape(-1), (None if used is None else np.asarray(used, dtype=bool).reshape(-1).copy())
 
 
 def _defect(Mx, J):
